@@ -78,6 +78,12 @@ Theorem C07_fisher_yates_uniform : forall n, (1 <= n)%nat ->
 Proof. exact fisher_yates_uniform. Qed.
 Print Assumptions C07_fisher_yates_uniform.
 
+(* ... and onto: every permutation of 0..n-1 is the image of an admissible coin vector (so of exactly one) *)
+Theorem C07_fisher_yates_surj : forall n target, (1 <= n)%nat -> Permutation (iota n) target ->
+  exists cs, admissible (n - 1) 0 n cs /\ fisher_yates n cs = Some target.
+Proof. exact fisher_yates_surj. Qed.
+Print Assumptions C07_fisher_yates_surj.
+
 (* the generator on a coin stream = the sampler's coins (moduli n, n-1, .., 2) fed to that map *)
 Theorem C07_random_permutation_fast_coins : forall n s pi s', random_permutation_fast n s = Ret (pi, s') ->
   exists cs, draw_coins (n - 1) 0 n s = Ret (cs, s') /\ admissible (n - 1) 0 n cs /\ fisher_yates n cs = Some pi.
